@@ -22,7 +22,8 @@ def cases(draw):
     w["threads"] = draw(st.integers(0, 11)) == 0
     # how the validators come to exist: each with its own explicit resolver (default), all over the very same
     # schema OBJECT with the default resolver, or later ones seeded with the first one's store
-    w["construction"] = draw(st.sampled_from(["own-resolver", "own-resolver", "same-schema-object", "seeded-from-first-store"]))
+    w["construction"] = draw(st.sampled_from(["own-resolver", "own-resolver", "same-schema-object", "seeded-from-first-store",
+                                             "equal-schemas-different-stores"]))
     # make errors plentiful: an extra always-failing-somewhere property with a format and a pattern
     return w
 
@@ -51,11 +52,13 @@ def variant(case, k):
     return c
 
 
+RULES = [lambda x: not isinstance(x, str) or len(x) % 2 == 0, lambda x: not isinstance(x, str) or x.startswith("a"),
+         lambda x: False]
+
+
 def checker_for(k):
     fc = impl.jsonschema.FormatChecker(formats=())
-    rules = [lambda x: not isinstance(x, str) or len(x) % 2 == 0, lambda x: not isinstance(x, str) or x.startswith("a"),
-             lambda x: False]
-    fc.checks("vf")(rules[k % 3])
+    fc.checks("vf")(RULES[k % 3])
     return fc
 
 
@@ -69,6 +72,15 @@ def build(case, k, shared=None):
         cls = impl.CLS[case["draft"]]
         return cls(shared["root"], format_checker=checker_for(0))
     c = variant(case, k)
+    if how == "equal-schemas-different-stores":
+        # same root schema (equal, not identical), no handlers at all, every document in the store -- only the
+        # contents of the stores differ between the validators
+        c = dict(c, root=copy.deepcopy(variant(case, 0)["root"]), via=dict((u, "store") for u in c["docs"]))
+        cls = impl.CLS[c["draft"]]
+        store = dict((u, copy.deepcopy(dd)) for u, dd in c["docs"].items())
+        resolver = impl.validators.RefResolver.from_schema(c["root"], id_of=cls.ID_OF, store=store)
+        v = cls(c["root"], resolver=resolver, format_checker=checker_for(k))
+        return v
     if how == "seeded-from-first-store" and shared is not None and "first" in shared:
         # the documented way to pre-load documents: pass a mapping as `store` -- here the first resolver's
         extra = dict((u, copy.deepcopy(dd)) for u, dd in c["docs"].items() if c["via"].get(u) in ("store", "store#"))
@@ -122,7 +134,8 @@ class C18(Prop):
     ASSUMPTIONS = ["generator interleavings are owned by the harness; thread schedules are only provoked "
                    "(sys.setswitchinterval), not enumerated"]
     GATES = {"suspended-in-scope": 100, "exhaustive-interleavings": 100, "threads": 20,
-             "construction:same-schema-object": 50, "construction:seeded-from-first-store": 50}
+             "construction:same-schema-object": 50, "construction:seeded-from-first-store": 50,
+             "construction:equal-schemas-different-stores": 50}
     MIN_NONTRIVIAL = 100
 
     def strategy(self, tier):
@@ -166,8 +179,10 @@ class C18(Prop):
             vc = variant(case, 0 if same else k)
             if same:
                 vc = dict(vc, docs={}, via={})        # the default resolver knows no external documents
+            if case.get("construction") == "equal-schemas-different-stores":
+                vc = dict(vc, root=variant(case, 0)["root"], via=dict((u, "store") for u in vc["docs"]))
             ctx = spec.Ctx(case["draft"], resolver=GW.oracle_resolver(vc), fmt=lambda name, x, _k=(0 if same else k): (
-                name != "vf" or bool(checker_for(_k).conforms(x, "vf"))))
+                name != "vf" or bool(RULES[_k % 3](x))))        # the rule itself, not a FormatChecker object
             try:
                 want = spec.valid(ctx, vc["root"], instance_for(case, k), GW.root_uri(vc))
             except (spec.Unsupported, spec.Unresolvable, RecursionError):
